@@ -38,8 +38,8 @@ PROPS = {
                 not_covered='the contract proved for the recursive skipper is: depth 0 => Err, termination by depth, reported count == bytes consumed, exact size for every fixed-width type and for binary, Void/Stop rejected; element-by-element exactness of nested containers against a value grammar is not proved; async skipper and the iterative unchecked skipper are not under contract'),
     'C09': dict(verus=THRIFT_UNITS, kani=['a3_varint_decode_total', 'rwext_read_i16', 'rwext_read_i32', 'rwext_read_i64', 'rwext_read_u64'], assumptions=A_COMMON,
                 not_covered=NOT_GEN + '; async readers; read_string/read_to_string (vec! allocation) not yet under contract'),
-    'C10': dict(verus=[], kani=['pb_varint_decode_total', 'pb_varint_roundtrip'], assumptions=A_COMMON[:1],
-                not_covered='only the varint decoders (incl. the unsafe decode_varint_slice) are decided in this revision'),
+    'C10': dict(verus=['prost'], kani=['pb_varint_decode_total', 'pb_varint_roundtrip'], assumptions=A_COMMON[:1] + ['decode_varint_slice (unsafe, unrolled) enters Verus through its documented safety contract; Kani pb_varint_decode_total proves it on the real code', 'derive(Clone) of DecodeContext replaced by its field-wise expansion; core::cmp::min redirected to a usize wrapper'],
+                not_covered='decode_varint, decode_varint_slow, decode_key, check_wire_type, WireType::try_from, DecodeContext::{enter_recursion,limit_reached} are verified total (no panic, bounded consumption); skip_field (`break <value>` unsupported by Verus), merge_loop (FnMut closure), bytes/string/message/group/map merge and generated merge_field are not decided'),
     'C11': dict(verus=[], kani=K_C11_W + K_C11_R, assumptions=A_COMMON[:1] + ['the documented preconditions of the unchecked codec (window of the reported size; complete well-formed input) are the harness assumptions'],
                 not_covered='LinkedBytes variant and zero-copy insertion, unchecked read_field_begin/list/set/map_begin, read_bytes/read_faststr/get_bytes and the iterative skipper are not under a harness'),
     'C18': dict(verus=[], kani=[h for h in K_PB if h not in ('pb_varint_roundtrip', 'pb_varint_decode_total')], assumptions=A_COMMON[:1],
@@ -53,6 +53,8 @@ def _k(kind='leaf', quick=True, bound='', timeout=None):
     return d
 
 KANI_HARNESSES = {h: _k() for h in K_SUPPORT + K_C11_W + K_C11_R + K_PB}
+for _h in ['pb_int64', 'pb_uint32', 'pb_uint64', 'pb_sint64', 'pb_int32']:
+    KANI_HARNESSES[_h] = _k(quick=False)   # ~4 min each: thorough tier only
 KANI_HARNESSES['bnd_c11_w_bytes_le5'] = _k(kind='bounded', bound='payload length 0..=5, arbitrary content')
 
 # property -> [(regex on obligation name, replay program, args)]
